@@ -1327,9 +1327,18 @@ fn private_device(root: &str, name: &str, minor: u32) -> String {
     let _ = std::fs::create_dir_all(&dir);
     let _ = std::fs::remove_file(&path);
     let made = Command::new("mknod").arg("-m").arg("666").arg(&path).arg("c").arg("1").arg(minor.to_string()).stdin(Stdio::null()).stdout(Stdio::null()).stderr(Stdio::null()).status().map(|s| s.success()).unwrap_or(false);
-    if made && is_dev(&path) {
+    // a node on a file system mounted nodev exists but cannot be opened: it must behave like the system's node
+    let usable = made && is_dev(&path) && match std::fs::OpenOptions::new().write(true).open(&path) {
+        Ok(mut f) => {
+            let wrote = f.write_all(b"x").and_then(|_| f.flush());
+            if minor == 3 { wrote.is_ok() } else { wrote.is_err() }
+        }
+        Err(_) => false,
+    };
+    if usable {
         path
     } else {
+        let _ = std::fs::remove_file(&path);
         format!("/dev/{}", name)
     }
 }
